@@ -28,6 +28,7 @@ func c02(c *eng.Ctx, r *eng.Report) {
 		"R2.8 the six functions of the hex-prefix (compact) key encoding keep the arithmetic constants that make them inverse to each other and equal to the specification (flag = 2·terminator+odd in the high nibble, high nibble first, terminator nibble 16). " +
 		"R2.9 the node iterator's look-ahead leaves the cursor one before the child it offers and only push() advances it, by one (what seek-to-a-start-key relies on). " +
 		"R2.10 every dispatch on the kind of a split RLP item in the trie decoder handles Byte, String and List or ends in an error. " +
+		"R2.11 prefixLen (where insert/delete split a short node) returns a position: every value it returns after having looked at key content derives from the scan position carried round its loop, never from one comparison step alone. " +
 		"Not decided: equality of the root with the Yellow-Paper value for a given content, iterator order as such, resolution after cache eviction."
 	r.Assume = []string{"nodes are only reachable through the trie package (unexported types)"}
 	c02CopyOnWrite(c, r)
@@ -40,6 +41,7 @@ func c02(c *eng.Ctx, r *eng.Report) {
 	c02HexPrefix(c, r)
 	c02IterCursor(c, r)
 	c02KindDispatch(c, r)
+	c02PrefixLen(c, r)
 }
 
 func isNodePtr(t types.Type) (string, bool) {
@@ -784,4 +786,131 @@ func c02KindDispatch(c *eng.Ctx, r *eng.Report) {
 	if n == 0 {
 		r.Fail(rule, "kind-dispatch:none", "", "no kind dispatch over rlp.Split found in storage/trie (decodeRef expected)")
 	}
+}
+
+// c02PrefixLen: insert and delete split a short node at prefixLen(key, n.Key);
+// the shape of the trie (hence the root) is canonical only if that is the
+// true common-prefix length. Structurally: the function scans with a position
+// carried round a loop, and whatever it returns once it has compared key
+// content must be computed from that position. A fast path that returns the
+// offset inside its current window is correct for the first window only.
+func c02PrefixLen(c *eng.Ctx, r *eng.Report) {
+	const rule = "R2.11"
+	r.Min(rule, 1)
+	fn := c.Func("storage/trie", "prefixLen")
+	if !r.Anchor(fn != nil, rule, "prefixLen") {
+		return
+	}
+	// loop-carried positions: phis one of whose edges derives from the phi itself
+	var carried []*ssa.Phi
+	for _, b := range fn.Blocks {
+		for _, in := range b.Instrs {
+			phi, ok := in.(*ssa.Phi)
+			if !ok {
+				break
+			}
+			for _, e := range phi.Edges {
+				if e != phi && valueDerivesFromValue(e, phi) {
+					carried = append(carried, phi)
+					break
+				}
+			}
+		}
+	}
+	// arithmetic on the position only: a value obtained by looking at content at
+	// that position (loads, slices, calls) is not itself a position
+	fromPos := func(v ssa.Value) bool {
+		seen := map[ssa.Value]bool{}
+		var walk func(v ssa.Value, d int) bool
+		walk = func(v ssa.Value, d int) bool {
+			if v == nil || d > 8 || seen[v] {
+				return false
+			}
+			seen[v] = true
+			switch x := v.(type) {
+			case *ssa.Phi:
+				for _, p := range carried {
+					if p == x {
+						return true
+					}
+				}
+				for _, e := range x.Edges {
+					if walk(e, d+1) {
+						return true
+					}
+				}
+			case *ssa.BinOp:
+				return walk(x.X, d+1) || walk(x.Y, d+1)
+			case *ssa.Convert:
+				return walk(x.X, d+1)
+			case *ssa.ChangeType:
+				return walk(x.X, d+1)
+			}
+			return false
+		}
+		return walk(v, 0)
+	}
+	// does v look at key content (an element or sub-slice of a parameter)?
+	content := func(v ssa.Value) bool {
+		seen := map[ssa.Value]bool{}
+		var walk func(v ssa.Value, d int) bool
+		walk = func(v ssa.Value, d int) bool {
+			if v == nil || d > 8 || seen[v] {
+				return false
+			}
+			seen[v] = true
+			switch x := v.(type) {
+			case *ssa.IndexAddr:
+				if _, isP := x.X.(*ssa.Parameter); isP {
+					return true
+				}
+			case *ssa.Slice:
+				if _, isP := x.X.(*ssa.Parameter); isP {
+					return true
+				}
+			}
+			if in, ok := v.(ssa.Instruction); ok {
+				var ops []*ssa.Value
+				for _, o := range in.Operands(ops) {
+					if *o != nil && walk(*o, d+1) {
+						return true
+					}
+				}
+			}
+			return false
+		}
+		return walk(v, 0)
+	}
+	inLoop := func(b *ssa.BasicBlock) bool {
+		for _, p := range carried {
+			if p.Block() == b || p.Block().Dominates(b) {
+				return true
+			}
+		}
+		return false
+	}
+	bad := ""
+	n := 0
+	for _, re := range eng.Returns(fn) {
+		v := re.Incoming(0)
+		if !inLoop(re.Ret.Block()) {
+			continue // before the scan started
+		}
+		n++
+		if fromPos(v) {
+			continue
+		}
+		// a return after the scan that does not use the position is acceptable only
+		// when no content comparison decided it (`return length` after a clean scan)
+		blk := re.Ret.Block()
+		if re.Pred != nil {
+			blk = re.Pred
+		}
+		for _, cd := range eng.EdgeConds(blk) {
+			if content(cd.V) {
+				bad = c.Pos(re.Ret.Pos()) + " returns " + eng.Desc(v) + " under " + eng.Desc(cd.V)
+			}
+		}
+	}
+	r.Check(len(carried) > 0 && n > 0 && bad == "", rule, "prefixLen:position", c.Pos(fn.Pos()), fmt.Sprintf("%d return(s) after the scan started, each computed from the carried position", n), "prefixLen "+bad+": the result of a content comparison is returned without the scan position it was made at, so for keys that first differ beyond the first step the reported common prefix is too short — insert/delete split the short node at the wrong nibble and two tries holding the same entries get different shapes and different roots")
 }
